@@ -113,9 +113,17 @@ def _check_records(ctx, I: Interp, shape: str, shifts: Tup, stats, rule_fn: str)
                 ctx.violation("S1", r.node, f"{shape}: provider {r.pid} has no declared shift (shifts has {len(shifts.items)} entries)")
                 continue
             sh = shifts.items[q]
-            if not isinstance(sh, Aff):
+            alts = sh.vals if isinstance(sh, Join) else [sh]
+            if not all(isinstance(a, Aff) for a in alts):
                 raise AnalysisError(f"sizeflow: declared shift of position {q} is not affine in {shape}: {sh!r}")
-            allowed = N - sh
+            # a shift that is one of several alternatives (max/min/conditional) must bound the reads whichever it is:
+            # check against each; report the first that fails
+            allowed = N - alts[0]
+            for a in alts[1:]:
+                cand = N - a
+                ups_ = _upper_bounds(r.arg)
+                if ups_ is not None and not any(nonneg_certificate(cand - u, r.facts) for u in ups_):
+                    allowed = cand
             rule = "S1"
             what = f"child {q} at most at n - shift = {allowed!r}"
         if ups is None:
@@ -192,12 +200,23 @@ def _run_shape(ctx, fam: ClassInfo, k: int, blocks: List[int], stats) -> None:
                           f"{shape}: ReverseRule.shifts has {len(rsh_t.items)} entries for {k} children", construct="ReverseRule.shifts arity")
             continue
         sub = {f"s{j}": shifts.items[j] for j in range(k)}
-        rshifts = Tup([x.subst(sub) if isinstance(x, Aff) else x for x in rsh_t.items])
+
+        def _sub(x):
+            if isinstance(x, Aff):
+                return x.subst(sub)
+            if isinstance(x, Join):
+                return Join([_sub(v) for v in x.vals])
+            return x
+
+        rshifts = Tup([_sub(x) for x in rsh_t.items])
         # S4r: position q of the children and position q of the shifts talk about the same class
         ok_map = True
         for q in range(k):
             cobj = rchildren.items[q]
             sh = rsh_t.items[q]
+            if isinstance(sh, Join) and all(isinstance(v, Aff) for v in sh.vals):
+                cands = [v for v in sh.vals if any(a.startswith("s") for a in v.c)]
+                sh = cands[0] if cands else sh.vals[0]
             if not isinstance(sh, Aff) or not isinstance(cobj, ClassObj):
                 raise AnalysisError(f"sizeflow: reverse position {q} not understood in {shape}")
             plus = sorted(a for a, v in sh.c.items() if v > 0)
